@@ -958,6 +958,8 @@ Fixpoint slot_get (l : list (N * handle)) (s : N) : option handle :=
 Definition slot_del (l : list (N * handle)) (s : N) := filter (fun e => negb (fst e =? s)) l.
 Definition slot_put (w : world) (s : N) (h : handle) : world :=
   mkw (w6 w) (hosts w) (wire w) (slot_del (slots w) s ++ [(s, h)]).
+(* the harness refuses to create a handle in an occupied slot (no implicit drop of the old handle) *)
+Definition slot_used (w : world) (s : N) : bool := match slot_get (slots w) s with Some _ => true | None => false end.
 Definition slot_rm (w : world) (s : N) : world := mkw (w6 w) (hosts w) (wire w) (slot_del (slots w) s).
 
 (* Fabric::deliver: route by destination address; unknown address: dropped. *)
@@ -1026,6 +1028,7 @@ Definition sock_addrs (k : kernel) (fd : N) : list N :=
 Definition step (w : world) (e : ev) : world * obs :=
   match e with
   | EListen slot h a port =>
+      if slot_used w slot then (w, o_none) else
       match get_host w h with
       | None => (w, o_none)
       | Some k =>
@@ -1038,6 +1041,7 @@ Definition step (w : world) (e : ev) : world * obs :=
         end
       end
   | EConnect slot h a port =>
+      if slot_used w slot then (w, o_none) else
       match get_host w h with
       | None => (w, o_none)
       | Some k =>
@@ -1073,6 +1077,7 @@ Definition step (w : world) (e : ev) : world * obs :=
       | _ => (w, o_none)
       end
   | EAccept ls ns =>
+      if slot_used w ns then (w, o_none) else
       match slot_get (slots w) ls with
       | Some (HListener h fd) =>
         match get_host w h with
@@ -1083,7 +1088,7 @@ Definition step (w : world) (e : ev) : world * obs :=
               (slot_put (set_host w h k1) ns (HStream h child),
                [[0; ia (fst peer); snd peer] ++ sock_addrs k1 child])
           | (k1, Pending) => (set_host w h k1, o_pending)
-          | (k1, Err er) => (set_host w h k1, o_err er)
+          | (_, Err er) => (w, o_err er)        (* ENotFound, or the `expect` panics of poll_accept: no step *)
           end
         end
       | _ => (w, o_none)
@@ -1183,6 +1188,7 @@ Definition step (w : world) (e : ev) : world * obs :=
   | ENetstat h => match get_host w h with Some k => (w, [0] :: netstat k) | None => (w, o_none) end
   | ECounts h => match get_host w h with Some k => (w, [0 :: table_counts k]) | None => (w, o_none) end
   | EUdpBind slot h a port =>
+      if slot_used w slot then (w, o_none) else
       match get_host w h with
       | None => (w, o_none)
       | Some k =>
